@@ -31,6 +31,7 @@ type R<T> = Result<T, String>;
 #[derive(Clone, Debug, PartialEq)]
 enum Ty {
     U8,
+    U16,  // UTF-16 code unit: N (binary), like char
     Word, // usize, i32, untyped integer
     Char,
     Bool,
@@ -81,6 +82,7 @@ fn ty_of_type(t: &Type, g: &syn::Generics) -> Ty {
             let n = seg.ident.to_string();
             match n.as_str() {
                 "u8" => Ty::U8,
+                "u16" => Ty::U16,
                 "usize" | "i32" | "u32" | "u64" | "isize" => Ty::Word,
                 "char" => Ty::Char,
                 "bool" => Ty::Bool,
@@ -107,6 +109,7 @@ pub struct FnInfo {
     coq: String,
     rust: String,
     has_self: bool,
+    self_ty: Ty,
     mut_self: bool,
     params: Vec<(String, Ty, bool)>, // name, type, is `&mut` parameter
     ret: Ty,
@@ -192,7 +195,7 @@ impl<'a> Tr<'a> {
             Expr::Path(p) => {
                 let n = last_ident(&p.path);
                 if p.path.is_ident("self") {
-                    return Ty::Level;
+                    return self.f.self_ty.clone();
                 }
                 if let Some(t) = self.lookup_local(&n) {
                     return t;
@@ -211,8 +214,12 @@ impl<'a> Tr<'a> {
                 if n == "None" {
                     return Ty::Opt(Box::new(Ty::Unknown));
                 }
+                if n == "REPLACEMENT_CHARACTER" {
+                    return Ty::Char;
+                }
                 Ty::Unknown
             }
+            Expr::Cast(c) => self.infer(&c.expr),
             Expr::Field(f) => {
                 if self.infer(&f.base) == Ty::Level {
                     Ty::U8
@@ -221,7 +228,13 @@ impl<'a> Tr<'a> {
                 }
             }
             Expr::Index(ix) => match self.infer(&ix.expr) {
-                Ty::Slice(t) => *t,
+                Ty::Slice(t) => {
+                    if let Expr::Range(_) = strip(&ix.index) {
+                        Ty::Slice(t)
+                    } else {
+                        *t
+                    }
+                }
                 _ => Ty::Unknown,
             },
             Expr::Binary(b) => match b.op {
@@ -244,6 +257,9 @@ impl<'a> Tr<'a> {
                 let name = m.method.to_string();
                 match name.as_str() {
                     "is_none" | "is_some" => return Ty::Bool,
+                    "len_utf16" | "len_utf8" => return Ty::Word,
+                    "into" => return self.infer(&m.receiver),
+                    "next" => return Ty::Opt(Box::new(Ty::Other)),
                     "bidi_class" if self.infer(&m.receiver) == Ty::Source => return Ty::Class,
                     "len" => return Ty::Word,
                     _ => {}
@@ -269,6 +285,9 @@ impl<'a> Tr<'a> {
                     }
                     if n == "char_len" {
                         return Ty::Word;
+                    }
+                    if n == "from_u32" {
+                        return Ty::Opt(Box::new(Ty::Char));
                     }
                     if (n == "max" || n == "min") && c.args.len() == 2 {
                         return self.num_ty(&c.args[0], &c.args[1]);
@@ -320,7 +339,7 @@ impl<'a> Tr<'a> {
                     Ty::Unknown => hint.clone(),
                     t => t,
                 };
-                return Ok(if t == Ty::Char { format!("{}%N", v) } else { format!("{}%nat", v) });
+                return Ok(if t == Ty::Char || t == Ty::U16 { format!("{}%N", v) } else { format!("{}%nat", v) });
             }
         }
         self.expr(e, b)
@@ -380,7 +399,15 @@ impl<'a> Tr<'a> {
                 Ok(format!("({})", xs.join(", ")))
             }
             Expr::Index(ix) => {
-                if let Expr::Range(_) = strip(&ix.index) {
+                if let Expr::Range(r) = strip(&ix.index) {
+                    // v[a..] : the tail of a slice (panics when a > len)
+                    if let (Some(st), None, syn::RangeLimits::HalfOpen(_)) = (&r.start, &r.end, &r.limits) {
+                        let v = self.expr(&ix.expr, b)?;
+                        let a = self.expr_h(st, &Ty::Word, b)?;
+                        let x = self.fresh("sl");
+                        b.push((x.clone(), format!("rs_slice_from {} {}", v, a)));
+                        return Ok(x);
+                    }
                     return Err("slicing by a range in expression position".into());
                 }
                 let v = self.expr(&ix.expr, b)?;
@@ -457,6 +484,9 @@ impl<'a> Tr<'a> {
                 return Err(format!("constant {} is not pure", n));
             }
             return Ok(t);
+        }
+        if n == "REPLACEMENT_CHARACTER" {
+            return Ok("65533%N".into());
         }
         match n.as_str() {
             "None" => return Ok("None".into()),
@@ -538,8 +568,17 @@ impl<'a> Tr<'a> {
             }
             BinOp::BitAnd(_) | BinOp::BitOr(_) | BinOp::BitXor(_) => {
                 let t = self.num_ty(&bi.left, &bi.right);
+                if t == Ty::U16 {
+                    let l = self.expr_h(&bi.left, &Ty::U16, b)?;
+                    let r = self.expr_h(&bi.right, &Ty::U16, b)?;
+                    return Ok(match bi.op {
+                        BinOp::BitAnd(_) => format!("(N.land {} {})", l, r),
+                        BinOp::BitOr(_) => format!("(N.lor {} {})", l, r),
+                        _ => format!("(N.lxor {} {})", l, r),
+                    });
+                }
                 if t != Ty::U8 && t != Ty::Level {
-                    return Err("bitwise operator on a type other than u8".into());
+                    return Err("bitwise operator on a type other than u8 / u16".into());
                 }
                 // `x & !1`: `!lit` takes the width of the other operand
                 let side = |me: &mut Self, e: &Expr, b: &mut Binds| -> R<String> {
@@ -571,6 +610,7 @@ impl<'a> Tr<'a> {
                 let l = self.expr_h(&bi.left, &t, b)?;
                 let r = self.expr_h(&bi.right, &t, b)?;
                 let m = if t.is_nat() { "Nat" } else { "N" };
+                let t = if t == Ty::U16 { Ty::Char } else { t };
                 match (&t, &bi.op) {
                     (Ty::U8 | Ty::Word | Ty::Level | Ty::Char, BinOp::Eq(_)) => Ok(format!("({}.eqb {} {})", m, l, r)),
                     (Ty::U8 | Ty::Word | Ty::Level | Ty::Char, BinOp::Ne(_)) => Ok(format!("(negb ({}.eqb {} {}))", m, l, r)),
@@ -622,6 +662,10 @@ impl<'a> Tr<'a> {
             let x = self.expr_h(&c.args[0], &t, b)?;
             let y = self.expr_h(&c.args[1], &t, b)?;
             return Ok(format!("(Nat.{} {} {})", n, x, y));
+        }
+        if segs.len() == 2 && segs[0] == "char" && n == "from_u32" && c.args.len() == 1 {
+            let a = self.expr(&c.args[0], b)?;
+            return Ok(format!("(rs_char_from_u32 {})", a));
         }
         // T::char_len(c) for the TextSource type parameter
         if segs.len() == 2 && n == "char_len" && c.args.len() == 1 {
@@ -681,6 +725,34 @@ impl<'a> Tr<'a> {
                 let l = self.expr(&m.receiver, b)?;
                 let d = self.expr(&m.args[0], b)?;
                 return Ok(format!("(opt_or {} {})", l, d));
+            }
+            "next" if m.args.is_empty() => {
+                // char::decode_utf16(units).next(): the first decoded item
+                if let Expr::Call(c) = strip(&m.receiver) {
+                    if let Expr::Path(p) = strip(&c.func) {
+                        let segs: Vec<String> = p.path.segments.iter().map(|s| s.ident.to_string()).collect();
+                        if segs.len() == 2 && segs[0] == "char" && segs[1] == "decode_utf16" && c.args.len() == 1 {
+                            let a = self.expr(&c.args[0], b)?;
+                            return Ok(format!("(rs_decode_utf16_first {})", a));
+                        }
+                    }
+                }
+                return Err("unsupported `.next()`".into());
+            }
+            "into" if m.args.is_empty() && matches!(rty, Ty::U8 | Ty::U16 | Ty::Char) => {
+                // widening integer conversion
+                if rty == Ty::U8 {
+                    return Err("u8 -> wider conversion".into());
+                }
+                return self.expr(&m.receiver, b);
+            }
+            "len_utf16" if m.args.is_empty() => {
+                let l = self.expr(&m.receiver, b)?;
+                return Ok(format!("(rs_len_utf16 {})", l));
+            }
+            "len_utf8" if m.args.is_empty() => {
+                let l = self.expr(&m.receiver, b)?;
+                return Ok(format!("(rs_len_utf8 {})", l));
             }
             "is_none" if m.args.is_empty() => {
                 let l = self.expr(&m.receiver, b)?;
@@ -1605,7 +1677,7 @@ impl<'a> Tr<'a> {
 fn ty_coq(t: &Ty) -> String {
     match t {
         Ty::U8 | Ty::Word | Ty::Level => "nat".into(),
-        Ty::Char => "N".into(),
+        Ty::Char | Ty::U16 => "N".into(),
         Ty::Bool => "bool".into(),
         Ty::Class => "bclass".into(),
         Ty::Unit => "unit".into(),
@@ -1842,11 +1914,15 @@ fn collect(repo: &Path, rel: &str) -> R<FileCtx> {
             }
             Item::Fn(fun) => {
                 let name = fun.sig.ident.to_string();
-                ctx.fns.push(fn_info(&stem, None, &name, &fun.sig, &fun.block));
+                ctx.fns.push(fn_info(&stem, None, Ty::Other, &name, &fun.sig, &fun.block));
             }
             Item::Impl(im) => {
-                let self_ty = match &*im.self_ty {
-                    Type::Path(p) => last_ident(&p.path),
+                let (self_ty, self_t) = match &*im.self_ty {
+                    Type::Path(p) => (last_ident(&p.path), ty_of_type(&im.self_ty, &im.generics)),
+                    Type::Slice(sl) => match ty_of_type(&sl.elem, &im.generics) {
+                        Ty::U16 => ("u16slice".to_string(), Ty::Slice(Box::new(Ty::U16))),
+                        _ => continue,
+                    },
                     _ => continue,
                 };
                 let label = match &im.trait_ {
@@ -1868,7 +1944,7 @@ fn collect(repo: &Path, rel: &str) -> R<FileCtx> {
                 for ii in &im.items {
                     if let ImplItem::Fn(m) = ii {
                         let name = m.sig.ident.to_string();
-                        ctx.fns.push(fn_info(&stem, Some(&label), &name, &m.sig, &m.block));
+                        ctx.fns.push(fn_info(&stem, Some(&label), self_t.clone(), &name, &m.sig, &m.block));
                     }
                 }
             }
@@ -1878,7 +1954,7 @@ fn collect(repo: &Path, rel: &str) -> R<FileCtx> {
     Ok(ctx)
 }
 
-fn fn_info(stem: &str, label: Option<&str>, name: &str, sig: &syn::Signature, block: &syn::Block) -> FnInfo {
+fn fn_info(stem: &str, label: Option<&str>, self_ty: Ty, name: &str, sig: &syn::Signature, block: &syn::Block) -> FnInfo {
     let mut has_self = false;
     let mut mut_self = false;
     let mut params = vec![];
@@ -1906,10 +1982,10 @@ fn fn_info(stem: &str, label: Option<&str>, name: &str, sig: &syn::Signature, bl
         Some(l) => (format!("src_{}_{}_{}", stem, l, name), format!("{}::{}::{}", stem, l, name)),
         None => (format!("src_{}_{}", stem, name), format!("{}::{}", stem, name)),
     };
-    FnInfo { key: (label.map(|s| s.to_string()), name.to_string()), coq, rust, has_self, mut_self, params, ret, item: block.clone() }
+    FnInfo { key: (label.map(|s| s.to_string()), name.to_string()), coq, rust, has_self, self_ty, mut_self, params, ret, item: block.clone() }
 }
 
-pub const FILES: [&str; 5] = ["src/level.rs", "src/char_data/mod.rs", "src/prepare.rs", "src/implicit.rs", "src/lib.rs"];
+pub const FILES: [&str; 6] = ["src/level.rs", "src/char_data/mod.rs", "src/prepare.rs", "src/implicit.rs", "src/lib.rs", "src/utf16.rs"];
 
 /// the functions the framework wants translated (others in these files are ignored silently):
 /// file stem, Self/trait label ("" = free function), function
@@ -1945,6 +2021,8 @@ pub const FUNCS: &[(&str, &str, &str)] = &[
     ("lib", "", "reorder_levels"),
     ("lib", "", "assign_levels_to_removed_chars"),
     ("implicit", "", "resolve_levels"),
+    ("utf16", "TextSource_for_u16slice", "char_at"),
+    ("utf16", "TextSource_for_u16slice", "char_len"),
 ];
 
 pub fn translate_all(repo: &Path, report: &mut Report) -> String {
@@ -2142,7 +2220,7 @@ fn translate_fn(
         ps.push_str(" (ts : rs_text_source)");
     }
     if f.has_self {
-        ps.push_str(" (self_ : nat)");
+        ps.push_str(&format!(" (self_ : {})", ty_coq(&f.self_ty)));
     }
     for (n, t, _) in &f.params {
         let ct = match t {
